@@ -1,12 +1,13 @@
 // chain: C14R
-// C14 (phase 1 of 2: determinism and isolation) — instances are deterministic and isolated, also across threads.
+// C14 (phase 1 of 3: determinism and isolation) — instances are deterministic and isolated, also across threads.
 // Workload: 2-4 tasks, each with 1-2 instances and its own history (init, bank, emulator switch among all 9 ids,
 // notes, song playback, generate, reset, close, re-init); the PRNG interleaves the tasks' calls at API-call
 // granularity, biased so that one task's init/switchEmulator/reset/close lands between two renders of another.
 // Oracle: the observed task's PCM and register stream (hash after every call) in the interleaved run - on one
 // thread, or on real threads serialised by the baton, inside a worker process that has already executed hundreds
 // of other runs - equal those of a SOLO run of the same history in a freshly exec'ed process.
-// Phase 2 (checks/c14r.cpp, TSan build) looks for data races under the TSan-invisible baton.
+// Phase 2 (checks/c14r.cpp, TSan build) looks for data races under the TSan-invisible baton; phase 3 (checks/c14v.cpp)
+// runs a sample of the plans under valgrind memcheck (output depending on uninitialised memory).
 #include "../sim/multitask.hpp"
 
 extern "C" void opn2_set_vgm_out_path(const char *path);
